@@ -24,7 +24,8 @@ EXPECTED_PROBES = ['tunnel_up', 'tunnel_refused_status', 'other_2xx_status',
                    'empty_reply', 'fault_during_tunnel', 'direct_no_entry',
                    'https_proxy', 'wss_through_proxy', 'proxy_from_environ',
                    'one_byte_reply', 'credentials',
-                   'threaded_send_during_tunnel']
+                   'threaded_send_during_tunnel',
+                   'earlier_connection_through_the_same_proxy']
 ASSUMPTIONS = ['the Proxy-Authorization header line itself is not judged '
                '(the property speaks about the CONNECT target and ordering)']
 
@@ -153,7 +154,8 @@ def make_case(family, i, rng, tier):
     purl = '%s://%s%s%s' % (pscheme, cred + '@' if cred else '', phost,
                             ':%d' % pport if pport else '')
     other = 'http://wrong-proxy.test:1'
-    case = {'url': url, 'mapping': mapping, 'proxy_url': purl,
+    warm = rng.random() < 0.25
+    case = {'url': url, 'mapping': mapping, 'proxy_url': purl, 'warm': warm,
             'other_url': other,
             'reply': rng.choice(REPLIES),
             'status': rng.choice([100, 101, 201, 204, 301, 400, 403, 407, 500,
@@ -313,6 +315,18 @@ def execute(case):
         return _execute_threaded(case)
     res = Result()
     sc, info = build(case)
+    if case.get('warm'):
+        # an earlier connection of the same process: another WebSocket
+        # object, same proxy configuration, same target host, another port.
+        # Nothing of it may be reused for the connection under test.
+        from six.moves.urllib.parse import urlparse
+        u = urlparse(case['url'])
+        wc = dict(case, url='%s://%s:%d/warm' % (
+            'ws' if u.scheme == 'wss' else 'wss', u.hostname,
+            8001 + (u.port or 0) % 7), reply='ok', faults=[], warm=False)
+        wsc, _ = build(wc)
+        netsim.run(wsc)
+        res.stats['probe:earlier_connection_through_the_same_proxy'] += 1
     tr = netsim.run(sc)
     w = tr.world
     res.stats.update(w.stats)
